@@ -25,6 +25,9 @@ def contents(p):
         "S1": dict(notes=[(0, 12, p, 0, 64), (12, 24, p + 4, 0, 50)], events=[("ts", 0, 4, 4)], dur=96),
         "S2": dict(notes=[(84, 24, p + 2, 0, 64), (100, 12, p + 5, 0, 70)], events=[("ks", 0, "G")], dur=192),
         "S3": dict(notes=[(0, 10, p, 0, 64), (5, 20, p, 1, 30)], events=[], dur=40),
+        # scale: five bars (4/4 then 3/4), thirty notes on three channels
+        "S6": dict(notes=lib.long_desc(30, p - 10, (0, 1, 9), 12, lens=(6, 12, 18, 30)),
+                   events=[("ts", 0, 4, 4), ("ks", 0, "D"), ("ts", 192, 3, 4)], dur=408),
     }
 
 
@@ -70,6 +73,8 @@ for _f in ("A", "R", "AR"):
 for _c in ("S1", "S3"):
     for _f in ("A", "R", "AR"):
         SEEDS.append(("bar_copy", _c, _f))
+for _route, _f in (("seq_copy", "R"), ("split", "A"), ("bars_nq", "A"), ("comp_copy", "R")):
+    SEEDS.append((_route, "S6", _f))
 for _f in ("A", "R", "AR"):
     SEEDS.append(("track_copy", "S2", _f))
 SEEDS.append(("comp_copy", "S2", "A"))
